@@ -191,3 +191,69 @@ Proof.
     | |- context[?a <? ?b] => destruct (Z.ltb_spec a b); try lia
     end; cbn [negb]; try reflexivity; try lia.
 Qed.
+
+(** ** The connection's send path (Conn.triggerSending … sendPacketsWithoutGSO) *)
+
+Fixpoint count_any (l : list Z) : Z :=
+  match l with [] => 0 | m :: r => (if m =? sm_SendAny then 1 else 0) + count_any r end.
+
+Lemma count_any_nonneg l : 0 <= count_any l.
+Proof. induction l as [|m r IH]; cbn [count_any]; [lia|]. destruct (m =? sm_SendAny); lia. Qed.
+
+Lemma pace_deadline_nonzero tus : pace_deadline tus <> 0.
+Proof. unfold pace_deadline. destruct (Z.eqb_spec tus 0); [vm_compute; discriminate|auto]. Qed.
+
+Lemma pace_loop_bound fuel : forall avail hr modes tus sent s' d rest,
+  pace_loop fuel avail hr modes tus sent = (s', d, rest) ->
+  sent <= s' /\ s' - sent <= 1 + count_any modes /\ s' - sent <= Z.max avail 0 /\
+  (d = 0 \/ d = pg_deadlineSendImmediately \/ d = pace_deadline tus).
+Proof.
+  induction fuel as [|f IH]; intros avail hr modes tus sent s' d rest H; cbn [pace_loop] in H;
+    pose proof (count_any_nonneg modes) as Hcm.
+  - inversion H; subst. lia.
+  - destruct (Z.leb_spec avail 0).
+    + inversion H; subst. lia.
+    + destruct modes as [|m r]; [inversion H; subst; cbn [count_any]; lia|].
+      pose proof (count_any_nonneg r) as Hr. cbn [count_any].
+      destruct (Z.eqb_spec m sm_SendPacingLimited).
+      { inversion H; subst. destruct (sm_SendPacingLimited =? sm_SendAny); lia. }
+      destruct (Z.eqb_spec m sm_SendAny) as [->|]; cbn [negb] in H.
+      2:{ inversion H; subst. lia. }
+      destruct hr.
+      { inversion H; subst. lia. }
+      apply IH in H. lia.
+Qed.
+
+(** Every packet the send path releases is licensed by its own SendMode = any answer (asked right
+    before it): the number of packets sent in one triggerSending never exceeds the number of "any"
+    answers, nor the data available; a pacing-limited answer always arms the pacing deadline (with
+    TimeUntilSend, or "immediately" if that is zero) — it is never left at 0. *)
+Theorem trigger_sending_gated : forall avail hr modes tus,
+  let r := trigger_sending avail hr modes tus in
+  pr_sent r <= count_any modes /\ pr_sent r <= Z.max avail 0 /\
+  (pr_deadline r = 0 \/ pr_deadline r = pg_deadlineSendImmediately \/ pr_deadline r = pace_deadline tus) /\
+  (forall rest, modes = sm_SendPacingLimited :: rest -> pr_sent r = 0 /\ pr_deadline r = pace_deadline tus /\ pr_deadline r <> 0).
+Proof.
+  intros avail hr modes tus r. unfold r, trigger_sending.
+  destruct modes as [|m rest0].
+  - cbn. repeat split; try lia; intros; discriminate.
+  - pose proof (count_any_nonneg rest0) as Hc. cbn [count_any].
+    destruct (Z.eqb_spec m sm_SendAny) as [->|Hany].
+    + destruct (pace_loop (Z.to_nat avail + 1) avail hr rest0 tus 0) as [[s' d] rest] eqn:E.
+      apply pace_loop_bound in E. cbn [pr_sent pr_deadline pr_blocked].
+      repeat split; try lia; exfalso; match goal with H : _ :: _ = _ :: _ |- _ => inversion H as [[H2 H3]]; vm_compute in H2; discriminate end.
+    + pose proof (Z.le_max_r avail 0) as Hmx.
+      destruct (Z.eqb_spec m sm_SendNone) as [->|].
+      { cbn [pr_sent pr_deadline]. repeat split; try lia; exfalso; match goal with H : _ :: _ = _ :: _ |- _ => inversion H as [[H2 H3]]; vm_compute in H2; discriminate end. }
+      destruct (Z.eqb_spec m sm_SendPacingLimited) as [->|].
+      { cbn [pr_sent pr_deadline]. repeat split; try lia; auto. apply pace_deadline_nonzero. }
+      destruct (Z.eqb_spec m sm_SendAck) as [->|].
+      { cbn [pr_sent pr_deadline]. repeat split; try lia; exfalso; match goal with H : _ :: _ = _ :: _ |- _ => inversion H as [[H2 H3]]; vm_compute in H2; discriminate end. }
+      cbn [pr_sent pr_deadline]. repeat split; try lia; exfalso; match goal with H : _ :: _ = _ :: _ |- _ => inversion H; congruence end.
+Qed.
+
+Example trigger_sending_example :
+  let r := trigger_sending 40 false [6;6;6;6;6;6;6;6;6;6;5] 541066375 in
+  pr_sent r = 10 /\ pr_deadline r = 541066375 /\ pr_rest r = [] /\
+  pr_sent (trigger_sending 3 true [6;6] (-1)) = 1 /\ pr_deadline (trigger_sending 3 true [6;6] (-1)) = pg_deadlineSendImmediately.
+Proof. vm_compute. repeat split; reflexivity. Qed.
